@@ -14,7 +14,8 @@ repo = sys.argv[2] if len(sys.argv) > 2 else "/repo"
 os.makedirs(target, exist_ok=True)
 mods = {}
 for root, dirs, files in os.walk(repo):
-    dirs[:] = [d for d in dirs if d not in (".git", "node_modules", "testdata")]
+    dirs[:] = [d for d in dirs if d not in (".git", "node_modules")
+               and not (d == "testdata" and not os.path.exists(os.path.join(root, d, "go.mod")))]
     if "go.mod" in files:
         m = re.search(r"^module\s+(\S+)", open(os.path.join(root, "go.mod")).read(), re.M)
         if m:
@@ -32,6 +33,7 @@ for gm in ["internal/e2e", "cmd/otelcorecol", "otelcol", "service", "exporter", 
         if mm and mm.group(1) in mods:
             req.setdefault(mm.group(1), mm.group(2))
 out = ["module go.opentelemetry.io/collector/verifharness", "", "go 1.23.0", "", "require ("]
+req.setdefault("go.opentelemetry.io/collector/pdata/testdata", "v0.124.0")
 for m in sorted(mods):
     if m in req and not m.startswith("go.opentelemetry.io/collector/cmd") and "internal/tools" not in m:
         out.append("\t%s %s" % (m, req[m]))
